@@ -72,7 +72,7 @@ func (it *interp) execCall(s *state, f frameID, fn *ssa.Function, x *ssa.Call) *
 				_, c := it.lenAtom(f, x)
 				d.addFact(lin.LE(nl, c))
 				r := rep{kind: kSlice, len: nl, cap: c, isnil: it.nilAtom(f, x)}
-				return r
+				return it.listAppend(d, f, x, r)
 			})
 		case "copy":
 			out := &state{}
@@ -138,6 +138,47 @@ func (it *interp) execCall(s *state, f frameID, fn *ssa.Function, x *ssa.Call) *
 	callee := cc.StaticCallee()
 	if callee != nil && !cc.IsInvoke() {
 		if core.InModule(callee) && len(callee.Blocks) > 0 {
+			if ms := it.modular[name]; ms != nil {
+				// analysed as an entry of its own under ms.Pre: here only the precondition is owed
+				it.need(s, fn, x, "PRE", shortName(name)+": "+ms.Text, func(d *disjunct) []lin.Ineq {
+					return ms.Pre(&Disjunct{d: d, it: it, f: f}, cc.Args)
+				})
+				it.lemmasUsed["modular:"+shortName(name)] = true
+				pure := it.writesNoMemory(callee, 0)
+				if ms.Post != nil && kindOf(x.Type()) == kInt {
+					out := &state{}
+					for _, d := range s.ds {
+						if !pure {
+							it.havoc(d, nil)
+						}
+						res := it.valAtom(f, x)
+						d.vals[valKey{f, x}] = rep{kind: kInt, lin: res}
+						common, alts := ms.Post(&Disjunct{d: d, it: it, f: f}, cc.Args, res)
+						d.addFacts(common...)
+						for _, a := range alts {
+							nd := d.clone()
+							nd.addFacts(a.Guard...)
+							nd.addFacts(a.Concl...)
+							if it.feasible(nd) {
+								out.ds = append(out.ds, nd)
+							}
+						}
+					}
+					return out
+				}
+				for _, d := range s.ds {
+					if !pure {
+						it.havoc(d, nil)
+					}
+					if x.Type() != nil {
+						d.vals[valKey{f, x}] = it.freshRep(d, f, x, x.Type())
+					}
+				}
+				return s
+			}
+			if it.lemmas[name] == "leb128len" && len(cc.Args) == 1 && kindOf(x.Type()) == kSlice {
+				return it.leb128LenLemma(s, f, x)
+			}
 			return it.inline(s, f, fn, x, callee, nil)
 		}
 		mname := name
@@ -397,3 +438,69 @@ func (it *interp) inline(s *state, f frameID, fn *ssa.Function, x *ssa.Call, cal
 }
 
 var _ = types.Identical
+
+// leb128LenLemma models a call to the module's LEB128 writer by the length of its result instead of
+// expanding its loop: a value below 2^(7k) and not below 2^(7(k-1)) is written in exactly k octets.
+// The lemma is not trusted: rule LEB.len (props/leb.go) derives the same table from the function's
+// code in every run of the checks that use it, and reports a violation when it does not hold.
+func (it *interp) leb128LenLemma(s *state, f frameID, x *ssa.Call) *state {
+	it.lemmasUsed["leb128len"] = true
+	out := &state{}
+	for _, d := range s.ds {
+		n := it.intLin(d, f, x.Call.Args[0])
+		lo := int64(0)
+		for k := int64(1); k <= 7; k++ {
+			nd := d.clone()
+			_, c := it.lenAtom(f, x)
+			if k <= 6 {
+				hi := int64(1)<<(7*uint(k)) - 1
+				nd.addFact(lin.GE(n, lin.Const(lo)))
+				nd.addFact(lin.LE(n, lin.Const(hi)))
+				nd.addFact(lin.GE(c, lin.Const(k)))
+				nd.vals[valKey{f, x}] = rep{kind: kSlice, len: lin.Const(k), cap: c, isnil: lin.Const(0)}
+				lo = hi + 1
+			} else {
+				l, _ := it.lenAtom(f, x)
+				nd.addFact(lin.GE(n, lin.Const(lo)))
+				nd.addFact(lin.GE(l, lin.Const(7)))
+				nd.addFact(lin.LE(l, lin.Const(10)))
+				nd.addFact(lin.LE(l, c))
+				nd.vals[valKey{f, x}] = rep{kind: kSlice, len: l, cap: c, isnil: lin.Const(0)}
+			}
+			if it.feasible(nd) {
+				out.ds = append(out.ds, nd)
+			}
+		}
+	}
+	return it.reduce(out)
+}
+
+// writesNoMemory: fn and the module functions it calls statically contain no store, no map update, no
+// channel operation, no go/defer and no call other than to builtins without side effects and to module
+// functions of the same kind (so a call to it leaves every tracked memory cell as it was).
+func (it *interp) writesNoMemory(fn *ssa.Function, depth int) bool {
+	if depth > 4 || len(fn.Blocks) == 0 {
+		return false
+	}
+	for _, b := range fn.Blocks {
+		for _, in := range b.Instrs {
+			switch x := in.(type) {
+			case *ssa.Store, *ssa.MapUpdate, *ssa.Send, *ssa.Go, *ssa.Defer, *ssa.Select, *ssa.Panic:
+				return false
+			case *ssa.Call:
+				if bi, ok := x.Call.Value.(*ssa.Builtin); ok {
+					switch bi.Name() {
+					case "len", "cap", "min", "max":
+						continue
+					}
+					return false
+				}
+				cal := x.Call.StaticCallee()
+				if cal == nil || x.Call.IsInvoke() || !core.InModule(cal) || !it.writesNoMemory(cal, depth+1) {
+					return false
+				}
+			}
+		}
+	}
+	return true
+}
